@@ -4,11 +4,11 @@ import RV.C02.Conc
 /-
   C02 round g — helper lemmas for the composition with C01.
 
-  `Rel mc ma`: the concrete `Memory` model `mc` (C01: three indexes, context compression,
-  `__contextTriples`, `__all_contexts`) represents the abstract store `ma` (C02: set of quads +
-  set of registered graphs).  It is C01's simulation relation `StSim` read with
-  `Q = (· ∈ ma.qs)`, `K = (· ∈ ma.allc)`; every store call is transported with C01's
-  `stSim_step`, every store answer with C01's `storeObsAgree_of`.
+  `Rel mc ma`: the concrete `Memory` model `mc` (C01's `NMem`: three NESTED-dictionary indexes, context
+  compression, `__contextTriples`, `__all_contexts`) represents the abstract store `ma` (C02: set of quads +
+  set of registered graphs).  It is C01's simulation relation `NSim` (dictionaries well formed + `StSim` of the
+  flattening) read with `Q = (· ∈ ma.qs)`, `K = (· ∈ ma.allc)`; every store call is transported with C01's
+  `nsim_step`, every store answer with C01's `nstoreObsAgree_of` (round g used the flat `StSim` / `stSim_step`).
 -/
 namespace RV.C02.Conc
 open RV RV.C02
@@ -16,23 +16,26 @@ open RV RV.C02
 def QKof (ma : Mem) : C01.QK := ⟨fun t g => (t, g) ∈ ma.qs, fun k => k ∈ ma.allc⟩
 
 structure Rel (mc : CMem) (ma : Mem) : Prop where
-  inv : C01.Inv mc
-  nd : mc.allc.Nodup
-  q : ∀ t g, C01.abs mc t g ↔ (t, g) ∈ ma.qs
-  k : ∀ k, k ∈ mc.allc ↔ k ∈ ma.allc
+  /-- every level of the three nested dictionaries has unique keys -/
+  wf : C01.NWF mc
+  /-- C01's representation invariant on the flattened indexes + context bookkeeping -/
+  inv : C01.Inv mc.toMem
+  nd : mc.toMem.allc.Nodup
+  q : ∀ t g, C01.abs mc.toMem t g ↔ (t, g) ∈ ma.qs
+  k : ∀ k, k ∈ mc.toMem.allc ↔ k ∈ ma.allc
 
-theorem Rel.toSim {mc : CMem} {ma : Mem} (h : Rel mc ma) : C01.StSim mc (QKof ma) :=
-  ⟨h.inv, h.nd, h.q, h.k⟩
+theorem Rel.toSim {mc : CMem} {ma : Mem} (h : Rel mc ma) : C01.NSim mc (QKof ma) :=
+  ⟨h.wf, ⟨h.inv, h.nd, h.q, h.k⟩⟩
 
-theorem rel_of_sim {mc : CMem} {S : C01.QK} {ma : Mem} (h : C01.StSim mc S)
+theorem rel_of_sim {mc : CMem} {S : C01.QK} {ma : Mem} (h : C01.NSim mc S)
     (hq : ∀ t g, S.Q t g ↔ (t, g) ∈ ma.qs) (hk : ∀ k, S.K k ↔ k ∈ ma.allc) : Rel mc ma :=
-  ⟨h.inv, h.nd, fun t g => (h.q t g).trans (hq t g), fun k => (h.k k).trans (hk k)⟩
+  ⟨h.wf, h.sim.inv, h.sim.nd, fun t g => (h.sim.q t g).trans (hq t g), fun k => (h.sim.k k).trans (hk k)⟩
 
-theorem rel_init : Rel C01.Mem.init Mem.empty :=
-  ⟨C01.inv_init, by simp [C01.Mem.init], fun t g => by simp [C01.abs, C01.Mem.init, Mem.empty, C01.getCtxs],
-    fun k => by simp [C01.Mem.init, Mem.empty]⟩
+theorem rel_init : Rel C01.NMem.init Mem.empty :=
+  rel_of_sim C01.nsim_init (fun t g => by simp [C01.QK.empty, C01.QSet.empty, Mem.empty])
+    (fun k => by simp [C01.QK.empty, Mem.empty])
 
-theorem Rel.err {mc : CMem} {ma : Mem} (h : Rel mc ma) : mc.err = false := h.inv.err
+theorem Rel.err {mc : CMem} {ma : Mem} (h : Rel mc ma) : mc.cx.err = false := h.inv.err
 
 theorem matches_eq (p : TPat) (t : Triple) : C01.Pat.matches p t = p.matches t := rfl
 
@@ -40,7 +43,7 @@ theorem matches_eq (p : TPat) (t : Triple) : C01.Pat.matches p t = p.matches t :
 
 theorem rel_add {mc : CMem} {ma : Mem} (h : Rel mc ma) (t : Triple) (k : Key) :
     Rel (mc.add t k) (ma.add t k) := by
-  refine rel_of_sim (C01.stSim_step h.toSim (.add t k)) ?_ ?_
+  refine rel_of_sim (C01.nsim_step h.toSim (.add t k)) ?_ ?_
   · intro t' g
     simp only [C01.QK.step, QKof, Mem.add, mem_sinsert, Prod.mk.injEq]
     exact or_comm
@@ -50,7 +53,7 @@ theorem rel_add {mc : CMem} {ma : Mem} (h : Rel mc ma) (t : Triple) (k : Key) :
 
 theorem rel_remove {mc : CMem} {ma : Mem} (h : Rel mc ma) (pat : TPat) (ctx : Option Key) :
     Rel (mc.remove pat ctx) (ma.remove pat ctx) := by
-  refine rel_of_sim (C01.stSim_step h.toSim (.remove pat ctx)) ?_ ?_
+  refine rel_of_sim (C01.nsim_step h.toSim (.remove pat ctx)) ?_ ?_
   · intro t g
     simp only [C01.QK.step, QKof, Mem.remove, mem_removeQ, ctxOk_iff, matches_eq]
   · intro k
@@ -58,7 +61,7 @@ theorem rel_remove {mc : CMem} {ma : Mem} (h : Rel mc ma) (pat : TPat) (ctx : Op
 
 theorem rel_addGraph {mc : CMem} {ma : Mem} (h : Rel mc ma) (k : Key) :
     Rel (mc.addGraph k) (ma.addGraph k) := by
-  refine rel_of_sim (C01.stSim_step h.toSim (.addGraph k)) ?_ ?_
+  refine rel_of_sim (C01.nsim_step h.toSim (.addGraph k)) ?_ ?_
   · intro t g
     simp only [C01.QK.step, QKof, Mem.addGraph]
   · intro k'
@@ -67,7 +70,7 @@ theorem rel_addGraph {mc : CMem} {ma : Mem} (h : Rel mc ma) (k : Key) :
 
 theorem rel_removeGraph {mc : CMem} {ma : Mem} (h : Rel mc ma) (k : Key) :
     Rel (mc.removeGraph k) (ma.removeGraph k) := by
-  refine rel_of_sim (C01.stSim_step h.toSim (.removeGraph k)) ?_ ?_
+  refine rel_of_sim (C01.nsim_step h.toSim (.removeGraph k)) ?_ ?_
   · intro t g
     simp only [C01.QK.step, QKof, Mem.removeGraph, Mem.remove, mem_removeQ, matches_all, ctxOk_some, true_and]
   · intro k'
@@ -78,7 +81,7 @@ theorem rel_removeGraph {mc : CMem} {ma : Mem} (h : Rel mc ma) (k : Key) :
     the abstract `addAll` -/
 theorem rel_iadd {mc : CMem} {ma : Mem} (h : Rel mc ma) (k : Key) (ts : List Triple) :
     Rel (mc.iadd k ts) (ma.addAll k ts) := by
-  refine rel_of_sim (C01.stSim_step h.toSim (.graph (.iadd k ts))) ?_ ?_
+  refine rel_of_sim (C01.nsim_step h.toSim (.graph (.iadd k ts))) ?_ ?_
   · intro t g
     simp only [C01.QK.step, C01.Spec.step, QKof, mem_addAll_qs]
     constructor
@@ -101,7 +104,7 @@ theorem rel_iadd {mc : CMem} {ma : Mem} (h : Rel mc ma) (k : Key) (ts : List Tri
 /-- registering a graph that is already registered changes nothing that `Rel` sees -/
 theorem rel_addGraph_of_mem {mc : CMem} {ma : Mem} (h : Rel mc ma) {k : Key} (hk : k ∈ ma.allc) :
     Rel mc (ma.addGraph k) := by
-  refine ⟨h.inv, h.nd, h.q, ?_⟩
+  refine ⟨h.wf, h.inv, h.nd, h.q, ?_⟩
   intro k'
   rw [h.k]
   simp only [Mem.addGraph, mem_sinsert]
@@ -120,25 +123,25 @@ theorem sees_iff {ma : Mem} {ctx : Option Key} {t : Triple} :
 /-- `store.triples(pattern, context)`: the same triples as the abstract store yields -/
 theorem mem_ctriples {mc : CMem} {ma : Mem} (h : Rel mc ma) (pat : TPat) (ctx : Option Key) (t : Triple) :
     t ∈ (mc.triplesC pat ctx).map (·.1) ↔ t ∈ (ma.triples pat ctx).map (·.1) := by
-  have h1 := ((C01.storeObsAgree_of h.toSim).triples pat ctx).2 t
+  have h1 := ((C01.nstoreObsAgree_of h.toSim).triples pat ctx).2 t
   rw [mem_triples_fst]
-  simp only [C01.Mem.triplesC, List.map_map, Function.comp_def, List.map_id']
+  simp only [C01.NMem.triplesC, List.map_map, Function.comp_def, List.map_id']
   rw [h1, sees_iff, matches_eq]
   exact and_comm
 
 theorem ctriples_fst (mc : CMem) (pat : TPat) (ctx : Option Key) :
-    (mc.triplesC pat ctx).map (·.1) = C01.triples mc pat ctx := by
-  simp only [C01.Mem.triplesC, List.map_map, Function.comp_def, List.map_id']
+    (mc.triplesC pat ctx).map (·.1) = mc.triples pat ctx := by
+  simp only [C01.NMem.triplesC, List.map_map, Function.comp_def, List.map_id']
 
 theorem nodup_ctriples {mc : CMem} {ma : Mem} (h : Rel mc ma) (pat : TPat) (ctx : Option Key) :
     ((mc.triplesC pat ctx).map (·.1)).Nodup := by
   rw [ctriples_fst]
-  exact ((C01.storeObsAgree_of h.toSim).triples pat ctx).1
+  exact ((C01.nstoreObsAgree_of h.toSim).triples pat ctx).1
 
 /-- `quads`: each triple with exactly the graphs the abstract store reports for it -/
 theorem mem_cquads {mc : CMem} {ma : Mem} (h : Rel mc ma) (pat : TPat) (ctx : Option Key) (q : Quad) :
     q ∈ expandCtxs (mc.triplesC pat ctx) ↔ q ∈ expandCtxs (ma.triples pat ctx) := by
-  have hobs := C01.storeObsAgree_of h.toSim
+  have hobs := C01.nstoreObsAgree_of h.toSim
   obtain ⟨t, k⟩ := q
   rw [mem_quads_of_triples, mem_expandCtxs]
   have ht := mem_ctriples h pat ctx t
@@ -151,11 +154,11 @@ theorem mem_cquads {mc : CMem} {ma : Mem} (h : Rel mc ma) (pat : TPat) (ctx : Op
   · rintro ⟨h1, h2⟩
     have h4 := ht.mpr h2
     rw [ctriples_fst] at h4
-    refine ⟨C01.ctxKeys mc t, ?_, ?_⟩
-    · simp only [C01.Mem.triplesC, List.mem_map]
+    refine ⟨C01.ctxKeys mc.cx t, ?_, ?_⟩
+    · simp only [C01.NMem.triplesC, List.mem_map]
       exact ⟨t, h4, rfl⟩
-    · have h5 : (t, C01.ctxKeys mc t) ∈ mc.triplesC pat ctx := by
-        simp only [C01.Mem.triplesC, List.mem_map]
+    · have h5 : (t, C01.ctxKeys mc.cx t) ∈ mc.triplesC pat ctx := by
+        simp only [C01.NMem.triplesC, List.mem_map]
         exact ⟨t, h4, rfl⟩
       exact ((hobs.triple_ctxs pat ctx _ h5).2.2 k).mpr h1
 
@@ -164,31 +167,31 @@ theorem nodup_cquads {mc : CMem} {ma : Mem} (h : Rel mc ma) (pat : TPat) (ctx : 
   apply nodup_expandCtxs
   · exact nodup_ctriples h pat ctx
   · intro x hx
-    exact ((C01.storeObsAgree_of h.toSim).triple_ctxs pat ctx x hx).2.1
+    exact ((C01.nstoreObsAgree_of h.toSim).triple_ctxs pat ctx x hx).2.1
 
 /-- `store.__len__(context)` -/
 theorem clen_eq {mc : CMem} {ma : Mem} (h : Rel mc ma) (ctx : Option Key) : mc.len ctx = ma.len ctx := by
-  refine (C01.storeObsAgree_of h.toSim).len ctx (selTriples TPat.all ctx ma.qs) (nodup_selTriples _ _ _) ?_
+  refine (C01.nstoreObsAgree_of h.toSim).len ctx (selTriples TPat.all ctx ma.qs) (nodup_selTriples _ _ _) ?_
   intro t
   rw [mem_selTriples, sees_iff]
   simp only [matches_all, true_and]
 
 /-- `store.contexts()` -/
 theorem mem_storeContexts {mc : CMem} {ma : Mem} (h : Rel mc ma) (k : Key) :
-    k ∈ storeContexts mc ↔ k ∈ ma.allc := (C01.storeObsAgree_of h.toSim).contexts_all.2 k
+    k ∈ storeContexts mc ↔ k ∈ ma.allc := (C01.nstoreObsAgree_of h.toSim).contexts_all.2 k
 
 theorem nodup_storeContexts {mc : CMem} {ma : Mem} (h : Rel mc ma) : (storeContexts mc).Nodup :=
-  (C01.storeObsAgree_of h.toSim).contexts_all.1
+  (C01.nstoreObsAgree_of h.toSim).contexts_all.1
 
 /-- `store.contexts(triple)` -/
 theorem mem_cGraphsOf {mc : CMem} {ma : Mem} (h : Rel mc ma) (t : Triple) (k : Key) :
     k ∈ cgGraphsOf mc t ↔ k ∈ C02.cgGraphsOf ma t := by
-  have := ((C01.storeObsAgree_of h.toSim).contexts_of t.1 t.2.1 t.2.2).2 k
+  have := ((C01.nstoreObsAgree_of h.toSim).contexts_of t.1 t.2.1 t.2.2).2 k
   simp only [cgGraphsOf, C02.cgGraphsOf, mem_ctxsOf]
   exact this
 
 theorem nodup_cGraphsOf {mc : CMem} {ma : Mem} (h : Rel mc ma) (t : Triple) : (cgGraphsOf mc t).Nodup :=
-  ((C01.storeObsAgree_of h.toSim).contexts_of t.1 t.2.1 t.2.2).1
+  ((C01.nstoreObsAgree_of h.toSim).contexts_of t.1 t.2.1 t.2.2).1
 
 /-! ### the layer -/
 
